@@ -648,13 +648,13 @@ def run(ctx):
         ctx.sample({"protect_name": dict((repr(n), md.protect_name(n)) for n in ["abc", "Abc", "select", 'a"b', "abc\n", ""])})
         ctx.sample({"KeyspaceMetadata.as_cql_query": md.KeyspaceMetadata('my "ks"', True, "SimpleStrategy", {"replication_factor": "1"}).as_cql_query()})
 
-    n_names = ctx.scale(100000, 6000000)
+    n_names = ctx.scale(100000, 3000000)
     for i in range(n_names):
         check_helpers(ctx, judge, md, enc, gen_name(rng, L))
         if i % 500 == 0:
             check_protect_names(ctx, judge, md, [gen_name(rng, L) for _ in range(rng.randint(0, 6))])
             check_scalars(ctx, judge, md, enc, rng)
-    n_schemas = ctx.scale(4000, 300000)
+    n_schemas = ctx.scale(4000, 150000)
     for i in range(n_schemas):
         names = check_schema(ctx, judge, md, cluster_mod, rng)
         if i == 0:
